@@ -50,7 +50,7 @@ def run_one(sid, tier="quick", inplace=False):
     subprocess.run(["git", "-C", "/repo", "worktree", "add", "-f", "--detach", wt, "HEAD"], check=True, capture_output=True)
     try:
         subprocess.run(["git", "-C", wt, "apply", patch], check=True)
-        env = dict(os.environ); env["VERIF_REPO"] = wt; env["VERIF_EVID"] = wt + "_evid"
+        env = dict(os.environ); env["VERIF_REPO"] = wt; env["VERIF_EVID"] = wt + "_evid"; env["VERIF_REPLAYS"] = wt + "_evid/replays"
         return run_checks(meta, tier, env)
     finally:
         subprocess.run(["git", "-C", "/repo", "worktree", "remove", "--force", wt], capture_output=True)
